@@ -106,11 +106,71 @@ fn transforms() -> Vec<(&'static str, Option<Matrix4<f32>>)> {
             Some(Matrix4::new_translation(&Vector3::new(0.5, -2.0, 0.25)) * Matrix4::new_nonuniform_scaling(&Vector3::new(2.0, 0.5, -4.0))),
         ),
         ("projective", {
+            // a genuinely projective matrix: w depends on the position
             let mut m = Matrix4::new_nonuniform_scaling(&Vector3::new(2.0, 4.0, -1.0));
+            m[(3, 0)] = -0.125;
+            m[(3, 2)] = 0.25;
             m[(3, 3)] = 2.0;
             Some(m)
         }),
     ]
+}
+
+/// Exact comparison (dyadic data), except under the projective matrix where
+/// the homogeneous divide rounds
+fn same(got: f64, want: f64, tname: &str) -> bool {
+    if tname == "projective" {
+        (got - want).abs() <= 1e-5 * want.abs().max(1.0)
+    } else {
+        got == want
+    }
+}
+
+/// Expected gradient (d/dx, d/dy, d/dz) of sum(w_i v_i) at the transformed
+/// position, by f64 dual numbers through the homogeneous transform
+fn expected_grad(c: &Case, m: &Option<Matrix4<f32>>) -> [f64; 3] {
+    use crate::c05::{D64, dual_bin};
+    use fidget_core::context::BinaryOpcode as B;
+    let p = [value_of(&Var::X), value_of(&Var::Y), value_of(&Var::Z)];
+    let seed = |i: usize| {
+        let mut d = D64::constant(p[i] as f64);
+        d.d[i] = 1.0;
+        d.m[i] = 1.0;
+        d
+    };
+    let p3 = [seed(0), seed(1), seed(2)];
+    let t: [D64; 3] = match m {
+        None => p3,
+        Some(m) => {
+            let row = |r: usize| -> D64 {
+                let mut acc = D64::constant(m[(r, 3)] as f64);
+                for k in 0..3 {
+                    let a = m[(r, k)] as f64;
+                    acc.v += a * p3[k].v;
+                    for i in 0..3 {
+                        acc.d[i] += a * p3[k].d[i];
+                        acc.m[i] += a.abs() * p3[k].m[i];
+                    }
+                }
+                acc
+            };
+            let w = row(3);
+            [0, 1, 2].map(|r| dual_bin(B::Div, row(r), w).unwrap())
+        }
+    };
+    let mut g = [0.0f64; 3];
+    for (v, wt) in c.vars.iter().zip(&c.weights) {
+        let k = match v {
+            Var::X => 0,
+            Var::Y => 1,
+            Var::Z => 2,
+            _ => continue,
+        };
+        for i in 0..3 {
+            g[i] += *wt as f64 * t[k].d[i];
+        }
+    }
+    g
 }
 
 fn transformed(p: [f32; 3], m: &Option<Matrix4<f32>>) -> [f64; 3] {
@@ -194,7 +254,7 @@ fn run_case<F: Backend>(cx: &mut Cx, c: &Case, label: &str) {
         let check = |cx: &mut Cx, kind: &str, got: Result<f32, String>| match got {
             Ok(g) => {
                 cx.add("value_checks", 1);
-                if (g as f64) != want {
+                if !same(g as f64, want, tname) {
                     cx.violation(
                         format!("{}-{kind} binds a variable to the wrong value (transform {})", F::NAME, if tname == "none" { "none" } else { "some" }),
                         desc(),
@@ -232,7 +292,7 @@ fn run_case<F: Backend>(cx: &mut Cx, c: &Case, label: &str) {
         match r {
             Ok(i) => {
                 cx.add("value_checks", 1);
-                if !(i.lower() as f64 == want && i.upper() as f64 == want) {
+                if !(same(i.lower() as f64, want, tname) && same(i.upper() as f64, want, tname)) {
                     cx.violation(
                         format!("{}-interval binds a variable to the wrong value (transform {})", F::NAME, if tname == "none" { "none" } else { "some" }),
                         desc(),
@@ -283,7 +343,7 @@ fn run_case<F: Backend>(cx: &mut Cx, c: &Case, label: &str) {
                 let want_here = if m.is_none() { expected(c, &None) } else { want };
                 for g in o {
                     cx.add("value_checks", 1);
-                    if g as f64 != want_here {
+                    if !same(g as f64, want_here, tname) {
                         cx.violation(
                             format!("{}-float-slice (var arrays) binds a variable to the wrong value", F::NAME),
                             desc(),
@@ -311,8 +371,19 @@ fn run_case<F: Backend>(cx: &mut Cx, c: &Case, label: &str) {
         .and_then(|r| r);
         match r {
             Ok(o) => {
+                let eg = expected_grad(c, &m);
                 for g in o {
                     check(cx, "grad-slice", Ok(g.v));
+                    let got = [g.dx as f64, g.dy as f64, g.dz as f64];
+                    cx.add("gradient_checks", 1);
+                    if (0..3).any(|i| !same(got[i], eg[i], tname)) {
+                        cx.violation(
+                            format!("{}-grad-slice gradient ignores or misapplies the transform ({})", F::NAME, if tname == "projective" { "projective" } else { "affine or none" }),
+                            desc(),
+                            format!("transform {tname}: partials {got:?}, expected {eg:?}"),
+                        );
+                        break;
+                    }
                 }
             }
             Err(e) => check(cx, "grad-slice", Err(e)),
@@ -440,14 +511,14 @@ impl Check for C14 {
     }
     fn meta(&self, tier: Tier) -> Meta {
         Meta {
-            rule: "case = (set of variables, operand order, supply order, extra variable?); functions sum(w_i * v_i) with distinct dyadic weights over EVERY subset of {X,Y,Z} united with k free variables for k in {0,1,2,3,4,30}; written in EVERY operand order while the total is <= 6 (thorough; quick <= 5), 12 rotations/reversals above, so first-encounter numbering takes every permutation; ShapeVars filled in both orders, with and without an unrelated extra variable; evaluated through the Shape API by point, interval (degenerate box), float-slice (scalar variables and variable arrays) and grad-slice evaluators of VM and JIT with transform in {none, identity, affine, projective}; one free variable at a time removed => the error must name it (point, float-slice, bind); after a simplification that drops a variable the variable map must be unchanged and values still right; oracle: explicit map Var -> value at the f64-transformed position, exact (dyadic data)".into(),
+            rule: "case = (set of variables, operand order, supply order, extra variable?); functions sum(w_i * v_i) with distinct dyadic weights over EVERY subset of {X,Y,Z} united with k free variables for k in {0,1,2,3,4,30}; written in EVERY operand order while the total is <= 6 (thorough; quick <= 5), 12 rotations/reversals above, so first-encounter numbering takes every permutation; ShapeVars filled in both orders, with and without an unrelated extra variable; evaluated through the Shape API by point, interval (degenerate box), float-slice (scalar variables and variable arrays) and grad-slice evaluators of VM and JIT with transform in {none, identity, affine, projective}; one free variable at a time removed => the error must name it (point, float-slice, bind); after a simplification that drops a variable the variable map must be unchanged and values still right; oracle: explicit map Var -> value at the f64-transformed position, exact (dyadic data; 1e-5 relative under the genuinely projective matrix, whose w depends on x and z); the grad-slice partials must equal the f64 dual-number derivative through the homogeneous transform".into(),
             bounds: match tier {
                 Tier::Quick => "all operand orders for <= 5 variables".into(),
                 Tier::Thorough => "all operand orders for <= 6 variables".into(),
             },
             assumptions: vec!["the solver's use of the variable map (fidget-solver) is exercised by C19".into()],
             crash_policy: CrashPolicy::Violation,
-            vacuity: vec![("value_checks", 10000), ("missing_variable_checks", 50), ("simplifications_that_dropped_a_variable", 10)],
+            vacuity: vec![("value_checks", 10000), ("gradient_checks", 1000), ("missing_variable_checks", 50), ("simplifications_that_dropped_a_variable", 10)],
             transitions_counter: "evals",
             nontrivial_counter: "cases",
             exhaustive: true,
